@@ -21,7 +21,7 @@ EXPLANATION = (
 
 def check(ctx, run):
     f = ctx.facts
-    run.rules_run = ['R13.1', 'R13.2', 'R13.3', 'R13.4', 'R13.5', 'R13.6', 'R13.7', 'R13.8', 'R05.14']
+    run.rules_run = ['R13.1', 'R13.2', 'R13.3', 'R13.4', 'R13.5', 'R13.6', 'R13.7', 'R13.8', 'R13.12', 'R05.14']
     # ---- R13.1
     keytypes = {}
     for fn in FNS:
@@ -103,6 +103,42 @@ def check(ctx, run):
                                            'on (found, count>0) intersection pushes and except skips, both decrementing; on every other class except pushes and intersection skips' if ok else
                                            f'path classes (found, count>0) -> (pushed, decremented): intersection {ti}, except {te}: the two results do not partition the first list',
                                            f'{b.file}:{b.line}' if b else '')
+    # ---- R13.12 initial multiplicity: what the fill of the second list stores is what the first-list loop tests (producer / consumer agreement)
+    for fn, tab in sorted(tables.items()):
+        b = f.bodies.get(fn)
+        if b is None or (True, True) not in tab:
+            continue            # the consumer does not test `count > 0` in a form R13.2 reads: nothing to agree with
+        paths, loops = editing.region_paths(b)
+        zero = []
+        unread = []
+        n_fill = 0
+        for q in paths:
+            for e in q.calls():
+                if called(e[1], 'BTreeMap::insert') and len(e[2]) == 3:
+                    n_fill += 1
+                    v = const_of(deref_all(e[2][2]))
+                    if v == 0:
+                        zero.append('insert(.., 0)')
+                    elif v is None:
+                        unread.append('insert(.., <computed>)')
+                elif called(e[1], 'Entry::or_default', 'Entry::or_insert', 'Entry::or_insert_with'):
+                    n_fill += 1
+                    init = 0 if called(e[1], 'Entry::or_default') else (const_of(deref_all(e[2][1])) if called(e[1], 'Entry::or_insert') and len(e[2]) == 2 else None)
+                    name = canon(e[1]).split('::')[-1]
+                    bumped = any(ev[0] == 'store' and show(ev[2]).startswith('Add(') and name in show(ev[2]) for ev in q.events) or \
+                        any('Add' in show(v_) and name in show(v_) for k_, v_ in q.store.items() if k_[0] != 'L')
+                    if init is None:
+                        unread.append(name + '(<computed>)')
+                    elif init == 0 and not bumped:
+                        zero.append(f'entry(..).{name}() with no increment')
+        loc = f'{b.file}:{b.line}'
+        if zero:
+            run.violation('R13.12', fn, 'initial-count', f'an element of the second list is recorded with multiplicity 0 ({zero[0]}) while the first-list loop keeps or drops an element on `count > 0`: '
+                          'an element that is present once is treated as absent on that path', loc)
+        elif unread or not n_fill:
+            run.undecided('R13.12', fn, 'initial-count', 'the multiplicity stored for an element of the second list is not a constant this rule reads: not decided', loc)
+        else:
+            run.proved('R13.12', fn, 'initial-count', f'{n_fill} fill site(s) store a multiplicity >= 1', loc)
     # ---- R13.3
     for fn in FNS[:3]:
         b = f.bodies.get(fn)
